@@ -1,8 +1,12 @@
 package h
 
 import (
+	"encoding/json"
 	"fmt"
+	"strings"
 	"testing"
+
+	"pgregory.net/rapid"
 )
 
 // Sequential-history properties that share the engine: each test tunes the generator towards the
@@ -181,6 +185,7 @@ func TestC18Seq(t *testing.T) {
 			"SetXattrs": 4, "WriteWithXattrs": 4, "WriteTombstoneWithXattrs": 2, "Incr": 1},
 		Keys:      []string{"a", "b"},
 		SmallDocs: true, MultiHandle: true, Purge: 1, Reopen: 1,
+		Extra: []ExtraAction{{Name: "GetSubDocRaw", Weight: 5, Gen: genGetSubDoc}},
 	}
 	seqProperty(t, "C18", "TestC18Seq", pr, 2000,
 		"rapid histories weighted to WriteSubDoc / SubdocInsert with generated dotted paths (present / absent leaf, absent parent, through non-objects, refused syntax), values (incl. empty = remove), CAS classes, on object / non-object / raw / deleted / absent documents, compared with a parse-edit-marshal reference; non-trivial = a successful write at a nested path (>= 2 components) into a document with >= 3 sibling properties, or any refused sub-document write on an existing document; distinct by <op, prior class, CAS class, outcome> sequence",
@@ -263,4 +268,99 @@ func TestC09Seq(t *testing.T) {
 			}
 			return false
 		})
+}
+
+// ---- C18: GetSubDocRaw returns the JSON of exactly the addressed property -------------------------
+
+func init() {
+	pseudoHandlers["GetSubDocRaw"] = func(r *Run, op Op) { r.GetSubDocStep(op) }
+}
+
+func (r *Run) GetSubDocStep(op Op) {
+	c18 := []string{"C18"}
+	tr := StepTrace{Op: op, Outcome: "subdoc-read"}
+	defer func() { r.Trace = append(r.Trace, tr) }()
+	p := r.W.Model.Get(op.C, op.Key)
+	tr.Prior = p.Class()
+	val, cas, err := r.W.Coll(op.H, op.C).GetSubDocRaw(ctx, op.Key, op.Path)
+	cls := errClass(err)
+	fail := func(f string, a ...any) {
+		tr.Outcome = "DEVIATION"
+		r.dev("subdoc.read", c18, "GetSubDocRaw(%q, %q) on %s: %s", op.Key, op.Path, p, fmt.Sprintf(f, a...))
+	}
+	if !subdocPathOK(op.Path) {
+		if err == nil {
+			fail("an unsupported path succeeded with %s", val)
+		}
+		tr.Outcome = "bad-path"
+		return
+	}
+	if !p.HasBody() {
+		if cls != "missing" {
+			fail("expected a missing-key error, got %v (value %s)", err, val)
+		}
+		tr.Outcome = "missing"
+		return
+	}
+	var doc any
+	if json.Unmarshal(p.Body, &doc) != nil {
+		if err == nil {
+			fail("the body is not JSON, yet the call returned %s", val)
+		}
+		tr.Outcome = "not-json"
+		return
+	}
+	cur, ok := doc.(map[string]any)
+	if !ok {
+		if err == nil && doc != nil {
+			fail("the body is not a JSON object, yet the call returned %s", val)
+		}
+		tr.Outcome = "not-object"
+		return
+	}
+	var want any = cur
+	for _, comp := range strings.Split(op.Path, ".") {
+		m, isMap := want.(map[string]any)
+		if !isMap {
+			if cls != "pathmismatch" && cls != "pathnotfound" {
+				fail("the path runs through a non-object; expected a path error, got %v (value %s)", err, val)
+			}
+			tr.Outcome = "path-mismatch"
+			return
+		}
+		next, has := m[comp]
+		if !has || next == nil {
+			if cls != "pathnotfound" && cls != "pathmismatch" {
+				fail("the property does not exist; expected path-not-found, got %v (value %s)", err, val)
+			}
+			tr.Outcome = "path-not-found"
+			return
+		}
+		want = next
+	}
+	if err != nil {
+		fail("the property exists (%s) but the call failed: %v", mustJSON(want), err)
+		return
+	}
+	if !jsonEqual(val, mustJSON(want)) {
+		fail("returned %s, the addressed property is %s", val, mustJSON(want))
+	}
+	if cas != p.Cas {
+		fail("returned CAS %#x, the document's CAS is %#x", cas, p.Cas)
+	}
+}
+
+func genGetSubDoc(rt *rapid.T, r *Run) (Op, bool) {
+	w := r.W
+	c := pickColl(rt, w, "gsd.coll")
+	keys := w.Model.Keys(c)
+	if len(keys) == 0 {
+		return Op{}, false
+	}
+	op := Op{K: "GetSubDocRaw", C: c, Key: pick(rt, keys, "gsd.key")}
+	if len(w.Handles) > 1 {
+		op.H = rapid.IntRange(0, len(w.Handles)-1).Draw(rt, "gsd.h")
+	}
+	op.Path = genSubdocPath(rt, w.Model.Get(c, op.Key))
+	return op, true
 }
